@@ -15,6 +15,7 @@ from core.report import Result
 from core.types import members
 
 from .c05_views import (
+    family,
     Production,
     all_nodes,
     clone,
@@ -118,8 +119,7 @@ def check_delegation(repo: Repo, res: Result) -> None:
     language = _language_of(repo, rule)
     lr_mro = {c.fq for c in repo.mro(lr)}
 
-    def allow(caller: FuncInfo, callee: FuncInfo) -> bool:
-        return callee.cls is not None and callee.cls.fq in lr_mro
+    allow = family(repo, lr)
 
     for name, want in LOWERING.items():
         m = repo.lookup_method(lr, name)
@@ -283,7 +283,7 @@ def check_are_named(repo: Repo, res: Result) -> FuncInfo | None:
     if an is None or an.is_abstract:
         res.add("C05.R1", construct, False, "LayerRule.are_named no longer exists", kind="structural")
         return None
-    view = dview(repo, an, lr, lambda a, b: b.cls is not None and b.cls.fq in lr_mro, tag="lr")
+    view = dview(repo, an, lr, family(repo, lr), tag="lr")
     layers_param = an.param_names[1] if len(an.param_names) > 1 else None
     # the call that hands module specifications to the wrapped rule: a Rule method called with an argument
     handoffs: list[tuple[ast.Call, FuncInfo]] = []
@@ -314,10 +314,10 @@ def check_are_named(repo: Repo, res: Result) -> FuncInfo | None:
             cs, how = T.callees(ctx, orig, byname_fallback=False)
         except Exception:  # noqa: BLE001
             return None
-        cs = [x for x in cs if not x.is_abstract and x.cls is not None and x.cls.fq in lr_mro]
+        cs = [x for x in cs if not x.is_abstract and (x.cls is None or x.cls.fq in lr_mro)]
         if len(cs) != 1 or how != "repo" or isinstance(cs[0].node, ast.Lambda):
             return None
-        return dview(repo, cs[0], lr, lambda a, b: b.cls is not None and b.cls.fq in lr_mro, tag="lr")
+        return dview(repo, cs[0], lr, family(repo, lr), tag="lr")
 
     prods = productions(view, arg, follow=follow)
     if not prods or any(p.elt is None for p in prods):
@@ -513,15 +513,26 @@ def _maker_sites(repo: Repo, T, ctx: FuncInfo, node_iter, classes: dict[str, str
                 # else: a class held in a variable / table is called - the places where it was chosen are the sites
                 continue
             # helper that creates the filter (not inlined because it sits in an expression): follow it with its arguments bound
-            try:
-                cs, how = T.callees(c_ctx, orig, byname_fallback=False)
-            except Exception:  # noqa: BLE001
-                cs, how = [], ""
+            bound_call = n
+            if isinstance(orig.func, (ast.Name, ast.Attribute)) and (repo.resolve_name(c_ctx.module, orig.func) or "") == "functools.partial" and n.args:
+                # partial(factory, flag) / partial(factory, is_regex=flag): the factory with these arguments bound
+                try:
+                    ft = T.expr(c_ctx, orig.args[0])
+                except Exception:  # noqa: BLE001
+                    ft = None
+                fs = [m[1] for m in members(ft) if m[0] == "fn"] if ft is not None else []
+                cs, how = (fs, "repo") if len(fs) == 1 else ([], "")
+                bound_call = ast.Call(func=n.args[0], args=list(n.args[1:]), keywords=list(n.keywords))
+            else:
+                try:
+                    cs, how = T.callees(c_ctx, orig, byname_fallback=False)
+                except Exception:  # noqa: BLE001
+                    cs, how = [], ""
             cs = [c for c in cs if not c.is_abstract]
-            if len(cs) == 1 and how == "repo" and cs[0].module.name == RULE and not isinstance(cs[0].node, ast.Lambda):
+            if len(cs) == 1 and how == "repo" and not isinstance(cs[0].node, ast.Lambda):
                 callee = cs[0]
                 if any(isinstance(x, ast.Call) and _ctor_kind(repo, T, callee, x, classes) for x in ast.walk(callee.node)):
-                    binding = _bind_args(callee, n)
+                    binding = _bind_args(callee, bound_call)
                     if binding is not None:
                         sub = dict(lambda_default_subst(n))
                         sub.update(env)
@@ -541,7 +552,7 @@ def _maker_sites(repo: Repo, T, ctx: FuncInfo, node_iter, classes: dict[str, str
                 continue
             for m in members(t):
                 kind = None
-                if m[0] == "fn" and isinstance(m[1], FuncInfo) and not isinstance(m[1].node, ast.Lambda) and m[1].module.name == RULE:
+                if m[0] == "fn" and isinstance(m[1], FuncInfo) and not isinstance(m[1].node, ast.Lambda):
                     kinds = {_ctor_kind(repo, T, m[1], x, classes) for x in ast.walk(m[1].node) if isinstance(x, ast.Call)} - {None}
                     rets = [r for r in own_nodes(m[1].node) if isinstance(r, ast.Return)]
                     if len(kinds) == 1 and len(rets) == 1:
@@ -657,7 +668,7 @@ def check_filter_selection(repo: Repo, res: Result, receiver: FuncInfo | None) -
         return
     construct = f"{receiver.relpath}::{receiver.qualname}::regex flag selects the filter class"
     rule_mro = {c.fq for c in repo.mro(rule)}
-    view = dview(repo, receiver, rule, lambda a, b: b.cls is not None and b.cls.fq in rule_mro, tag="rule")
+    view = dview(repo, receiver, rule, family(repo, rule), tag="rule")
     params = [p for p in receiver.param_names if p not in ("self", "cls")]
     if not params:
         res.undecide("C05.R1", construct, "the receiving Rule method has no parameter for the module specifications", where(receiver, receiver.node))
